@@ -85,7 +85,7 @@ impl Pattern {
     /// Allows to specify case sensitivity
     pub fn regex_with(pattern: &str, opts: &PatternOpts) -> Result<Pattern, PatternError> {
         let pattern = pattern.trim_start_matches('^');
-        let pattern = pattern.trim_end_matches('$');
+        let pattern = Self::trim_end_anchors(pattern);
         let pattern = pattern.to_string();
 
         let anchored_regex = "^".to_string() + &pattern + "$";
@@ -107,6 +107,20 @@ impl Pattern {
                 cause: e.to_string(),
             }),
         }
+    }
+
+    /// Strips the `$` anchors from the end of a regular expression,
+    /// but leaves an escaped `\$`, which stands for a literal dollar character.
+    fn trim_end_anchors(pattern: &str) -> &str {
+        let mut pattern = pattern;
+        while let Some(head) = pattern.strip_suffix('$') {
+            let backslashes = head.chars().rev().take_while(|c| *c == '\\').count();
+            if backslashes % 2 == 1 {
+                break;
+            }
+            pattern = head;
+        }
+        pattern
     }
 
     /// Creates a `Pattern` that matches literal string. Case insensitive.
